@@ -112,7 +112,8 @@ Proof. exact word_start_boundary. Qed.
 
 (** the candidates for a word whose last token is a plain prefix (no directory part, no
     bar, no home / environment form): exactly the entries of the current directory
-    that start with it (directories only for cd), rendered by comp_of, sorted *)
+    that start with it (directories only for cd -- a symbolic link to a directory IS one, [entry_is_dir] goes
+    through the link as Path::is_dir does), rendered by comp_of, sorted *)
 Theorem C20_candidates : forall fs getenv word for_dir sep pfx entries,
   last_token (parse_line word) = (sep, pfx) ->
   has_char c_slash pfx = false -> has_char c_pipe pfx = false ->
@@ -120,9 +121,21 @@ Theorem C20_candidates : forall fs getenv word for_dir sep pfx entries,
   fs [c_dot] = Some entries ->
   exists l, complete_path fs getenv word for_dir = COk l /\
     sorted_comps l = true /\
-    Permutation l (map (comp_of [] sep (is_env_prefix word))
-                       (filter (fun e => (negb for_dir || snd e) && starts_with (fst e) pfx) entries)).
+    Permutation l (map (fun e => comp_of [] sep (is_env_prefix word) (fst e, entry_is_dir e))
+                       (filter (fun e => (negb for_dir || entry_is_dir e) && starts_with (fst e) pfx) entries)).
 Proof. exact candidates_exact. Qed.
+
+(** a symbolic link to a directory (or any entry that is a directory through the link) with
+    the typed prefix is among the candidates, also for cd, with the directory suffix *)
+Theorem C20_link_dir_offered : forall fs getenv word for_dir sep pfx entries e,
+  last_token (parse_line word) = (sep, pfx) ->
+  has_char c_slash pfx = false -> has_char c_pipe pfx = false ->
+  needs_expand_home pfx = false -> starts_with_c c_dollar pfx = false ->
+  fs [c_dot] = Some entries ->
+  In e entries -> entry_is_dir e = true -> starts_with (fst e) pfx = true ->
+  exists l c, complete_path fs getenv word for_dir = COk l /\ In c l /\ cp_dir c = true /\
+              c = comp_of [] sep (is_env_prefix word) (fst e, true).
+Proof. exact dir_entry_offered. Qed.
 
 Check C20_partial : forall expand q cmd name d,
   honours_guards expand -> cmd_word cmd = true -> valid_filename name = true ->
@@ -149,3 +162,4 @@ Print Assumptions C20_word_start_boundary.
 Print Assumptions C20_candidates.
 Print Assumptions C20_parse_dq_escaped.
 Print Assumptions C20_trailing_blank_regression.
+Print Assumptions C20_link_dir_offered.
